@@ -10,8 +10,11 @@ for f in sorted(glob.glob("/verif/seeded/*/meta.json")):
     if d and (m.get("what") != d.get("what") or m.get("needs") != d.get("needs")):
         m["what"], m["needs"] = d.get("what", ""), d.get("needs", "")
         json.dump(m, open(f, "w"), indent=1)
+    if d.get("history") and m.get("history") != d["history"]:
+        m["history"] = d["history"]
+        json.dump(m, open(f, "w"), indent=1)
     checks = "; ".join(f"{c}: {'CAUGHT' if r['caught'] else 'missed'}" + (f" ({r['summary'][0].split('violations by clause/key: ')[-1][:110]})" if r.get("summary") and r["caught"] else "") for c, r in m.get("checks", {}).items())
-    rows.append((m["name"], m.get("breaks_property"), "yes" if m.get("confirmed") else "NO", m.get("what", ""), m.get("needs", ""), checks))
+    rows.append((m["name"], m.get("breaks_property"), "yes" if m.get("confirmed") else "NO", m.get("what", ""), m.get("needs", ""), checks + (" -- " + m["history"] if m.get("history") else "")))
 with open("/verif/seeded/RESULTS.md", "w") as out:
     out.write("# Seeded breaking changes (written by sub-agents that saw only the property text)\n\n"
               "Each change was confirmed in a scratch worktree by `tools/seedcheck.py`: demo passes on the unchanged tree, patch applies, the pinned suite still passes, demo fails with the change. "
